@@ -136,7 +136,7 @@ class C20:
             elif kind == 'k2e' and kern_inputs:
                 src = rng.choice(kern_inputs)
                 out = posixpath.join(WORK, rng.choice(['out', 'in', 'conv']), posixpath.basename(src).rsplit('.', 1)[0] + rng.choice(EKERN_SUFFIXES))
-                ops.append({'op': 'k2e', 'in': as_given(src), 'out': as_given(out), 'premkdir': True})
+                ops.append({'op': 'k2e', 'in': as_given(src), 'out': as_given(out), 'premkdir': True, 'prefill': rng.random() < 0.25})
                 produced_ekern.append(out)
             elif kind == 'e2k':
                 if produced_ekern and rng.random() < 0.7:
@@ -146,20 +146,21 @@ class C20:
                     src = posixpath.join(WORK, 'in', 'given' + str(len(ops)) + rng.choice(EKERN_SUFFIXES))
                     ops.append({'op': 'put_ekern', 'path': src, 'doc': rng.randrange(ndocs), 'eol': rng.choice(['\n', '\n', '\r\n'])})
                 out = posixpath.join(WORK, rng.choice(['out', 'conv']), 'back' + str(len(ops)) + '.krn')
-                ops.append({'op': 'e2k', 'in': as_given(src), 'out': as_given(out), 'premkdir': True})
+                ops.append({'op': 'e2k', 'in': as_given(src), 'out': as_given(out), 'premkdir': True, 'prefill': rng.random() < 0.25})
             elif kind == 'cli_single' and kern_inputs:
                 src = rng.choice(kern_inputs)
                 out = None
                 if rng.random() < 0.5:
                     out = posixpath.join(WORK, rng.choice(['out', 'in']), 'cli' + str(len(ops)) + '.ekrn')
                 ops.append({'op': 'cli', 'mode': 'k2e', 'input': as_given(src), 'output': as_given(out) if out else None, 'recursive': rng.random() < 0.3,
-                            'verbose': rng.choice([1, 1, 0]), 'premkdir': True})
+                            'verbose': rng.choice([1, 1, 0]), 'premkdir': True, 'prefill': rng.random() < 0.25})
                 produced_ekern.append(out or src.rsplit('.', 1)[0] + '.ekrn')
             elif kind == 'cli_dir':
                 d = rng.choice(['in', 'in', '', 'in/sub', 'data', 'nowhere'])
                 mode = 'k2e' if rng.random() < 0.75 else 'e2k'
                 ops.append({'op': 'cli', 'mode': mode, 'input': as_given(posixpath.join(WORK, d)) if d else as_given(WORK) if cwd != WORK else WORK,
-                            'output': None, 'recursive': rng.random() < 0.55, 'verbose': rng.choice([1, 1, 0]), 'premkdir': False})
+                            'output': None, 'recursive': rng.random() < 0.55, 'verbose': rng.choice([1, 1, 0]), 'premkdir': False,
+                            'prefill': rng.random() < 0.25})
             elif kind == 'roundtrip' and kern_inputs:
                 src = rng.choice(kern_inputs)
                 ops.append({'op': 'roundtrip', 'in': src, 'tag': 'rt' + str(len(ops)), 'via': rng.choice(['cli', 'func'])})
@@ -508,6 +509,8 @@ class C20:
                     src, out = absolute(op['in']), absolute(op['out'])
                     if op.get('premkdir'):
                         fs.mkdirs(posixpath.dirname(out))
+                        if op.get('prefill') and out != src:
+                            fs.put(out, b'STALE OUTPUT OF AN EARLIER, LONGER SCORE\n' * 60)     # an already-converted, longer output
                         before = fs.snapshot()
                     data = fs.get(src)
                     fn = kp.kern_to_ekern if kind == 'k2e' else kp.ekern_to_krn
@@ -609,6 +612,8 @@ class C20:
             out = absolute(op['output']) if op.get('output') else self._with_suffix(inp, out_suffix)
             if op.get('premkdir'):
                 fs.mkdirs(posixpath.dirname(out))
+                if op.get('prefill') and out != inp:
+                    fs.put(out, b'STALE OUTPUT OF AN EARLIER, LONGER SCORE\n' * 60)
                 before = fs.snapshot()
             data = fs.get(inp)
             status, so, se = run_cli(argv)
@@ -631,7 +636,12 @@ class C20:
         expect = {}
         for p in inputs:
             expect[p] = (self._with_suffix(p, out_suffix), ref_fn(fs.get(p)))
-        # an e2k conversion overwrites a .krn that may itself be an input of nothing else here; k2e outputs may pre-exist
+        if op.get('prefill'):
+            for p in inputs:
+                o = expect[p][0]
+                if o not in expect and fs.get(o) is None:
+                    fs.put(o, b'STALE OUTPUT OF AN EARLIER, LONGER SCORE\n' * 60)      # already-converted outputs of longer scores
+            before = fs.snapshot()
         status, so, se = run_cli(argv)
         faulted = fault_state() != f0
         log.emit('client', 'cli-dir', argv, [status, len(inputs)])
